@@ -36,6 +36,8 @@ func (c *ocodeClient) Emit(line string) error {
 	log.Printf("debug: [ocode_client] emit %s\n", line)
 	ocode, err := parseLineToOcode(line)
 	if err != nil {
+		// 呼び出し側 (pass1 の各ハンドラ) は戻り値を見ていないため、ここで必ず診断を出す
+		log.Printf("error: cannot assemble '%s': %v", strings.TrimSpace(line), err)
 		return err
 	}
 	c.Ocodes = append(c.Ocodes, ocode)
